@@ -46,16 +46,35 @@ pub fn gen_clients(r: &mut Rng, n: usize, with_invalid: bool, max_reqs: usize) -
                 // a path that is a DIRECTORY on the hub, and one below a regular FILE
                 8 if odd_paths => "dir".to_string(),
                 9 if odd_paths => "blocker/below".to_string(),
+                // the hub's own lock file, addressed like any other relative path
+                10 if odd_paths => ".copia/commit.lock".to_string(),
                 _ => r.pick(&shared).clone(),
             };
             // sometimes the same file under another spelling (`./p`, `d//f`, `d/./f`): the hub
             // accepts these, and they name the same compare-and-swap object
             let path = if r.below(6) == 0 { respell(&path, r) } else { path };
-            let expected = match r.below(10) {
+            let mut expected = match r.below(10) {
                 0 | 1 => Exp::None,
                 2 | 3 => Exp::Initial,
                 4..=7 => Exp::Learned,
                 _ => Exp::OfBody(r.below(4) as u32),
+            };
+            // conflict-copies as first-class paths: a small body all clients share is sometimes
+            // written with a stale expectation (it lands at `<p>.conflict-<its hash>`), and that very
+            // name is sometimes written to / deleted / read like any other path
+            let mut shared64_body: Option<u32> = None;
+            let path = if r.below(9) == 0 {
+                let t = r.below(2) as u32;
+                if r.coin() {
+                    expected = *r.pick(&[Exp::OfShared(t), Exp::Learned, Exp::None]);
+                    conflict_name_of_shared(&shared[0], t)
+                } else {
+                    shared64_body = Some(t);
+                    expected = Exp::OfBody(3);
+                    shared[0].clone()
+                }
+            } else {
+                path
             };
             match r.below(100) {
                 0..=54 => {
@@ -77,6 +96,7 @@ pub fn gen_clients(r: &mut Rng, n: usize, with_invalid: bool, max_reqs: usize) -
                     // C10 mode only: two clients may put the very same bytes (same declared hash)
                     let shared_body = if with_invalid && r.below(4) == 0 { Some(r.below(2) as u32) } else { None };
                     let size = if shared_body.is_some() { if size > 1000 { 300_000 } else { 64 } } else { size };
+                    let (shared_body, size) = if shared64_body.is_some() { (shared64_body, 64) } else { (shared_body, size) };
                     let stop = declared == Declared::ShortBodyThenClose;
                     reqs.push(Req::Put { path, expected, size, declared, shared_body });
                     if stop {
